@@ -28,6 +28,10 @@ class Fun2(pytrans.Fun):
         if isinstance(e.func, ast.Attribute) and e.func.attr == "join" and len(e.args) == 1 and not e.keywords:
             args = [self.expr(e.func.value, locals_), self.expr(e.args[0], locals_)]
             return self.with_args(args, lambda a: ("(py_join %s %s)" % (a[0], a[1]), False))
+        if isinstance(e.func, ast.Attribute) and (e.func.attr, len(e.args)) in getattr(self, "oracle_methods", {}) and not e.keywords:
+            args = [self.expr(e.func.value, locals_)] + [self.expr(a, locals_) for a in e.args]
+            fn = self.oracle_methods[(e.func.attr, len(e.args))]
+            return self.with_args(args, lambda a: ("(%s %s)" % (fn, " ".join(a)), False))
         if isinstance(e.func, ast.Attribute) and e.func.attr == "values" and not e.args and not e.keywords:
             return self.with_args([self.expr(e.func.value, locals_)], lambda a: ("(py_values %s)" % a[0], False))
         return super().call(e, locals_)
@@ -73,19 +77,37 @@ class Fun2(pytrans.Fun):
                 raise Unsupported("break outside a translated loop")
             return "(Ok %s)" % self.loop_tups[-1][1]
         if isinstance(s, ast.Try):
-            # try: <name> = <expr>   except <Exc>: <block>       (no else / finally, one handler, no `as`)
-            if s.orelse or s.finalbody or len(s.handlers) != 1 or len(s.body) != 1:
+            # try: <name> = <expr>  |  <call>     except <Exc> [as e]: <block>   (no else / finally, one or two handlers;
+            # a bound exception may only be mentioned in logging calls, which are dropped)
+            if s.orelse or s.finalbody or len(s.handlers) not in (1, 2) or len(s.body) != 1:
                 raise Unsupported("try shape")
-            h, a = s.handlers[0], s.body[0]
-            if h.name is not None or h.type is None:
-                raise Unsupported("try handler shape")
-            if not (isinstance(a, ast.Assign) and len(a.targets) == 1 and isinstance(a.targets[0], ast.Name)):
+            a = s.body[0]
+            for h in s.handlers:
+                if h.type is None:
+                    raise Unsupported("try handler shape")
+                if h.name is not None:
+                    for st in h.body:
+                        ignored = isinstance(st, ast.Expr) and isinstance(st.value, ast.Call) and \
+                            (pytrans.dotted(st.value.func) or "").startswith(pytrans.IGNORED_CALL_PREFIXES)
+                        if not ignored and any(isinstance(x, ast.Name) and x.id == h.name for x in ast.walk(st)):
+                            raise Unsupported("the bound exception is used outside logging")
+            if isinstance(a, ast.Assign) and len(a.targets) == 1 and isinstance(a.targets[0], ast.Name):
+                n, val = a.targets[0].id, a.value
+            elif isinstance(a, ast.Expr) and isinstance(a.value, ast.Call):
+                n, val = None, a.value
+            else:
                 raise Unsupported("try body shape")
-            n = a.targets[0].id
-            code = self.lift(self.expr(a.value, locals_))
-            loc = set(locals_) | {n}
-            return "(py_catch %s %s (fun _ => %s) (fun %s => %s))" % (
-                code, self.exc_of(h.type), self.block(h.body, locals_, cont), ident(n), cont(loc))
+            code = self.lift(self.expr(val, locals_))
+            loc = set(locals_) | ({n} if n else set())
+            binder = ident(n) if n else "_"
+            if len(s.handlers) == 1:
+                h = s.handlers[0]
+                return "(py_catch %s %s (fun _ => %s) (fun %s => %s))" % (
+                    code, self.exc_of(h.type), self.block(h.body, locals_, cont), binder, cont(loc))
+            h1, h2 = s.handlers
+            return "(py_catch2 %s %s %s (fun _ => %s) (fun _ => %s) (fun %s => %s))" % (
+                code, self.exc_of(h1.type), self.exc_of(h2.type), self.block(h1.body, locals_, cont),
+                self.block(h2.body, locals_, cont), binder, cont(loc))
         if isinstance(s, ast.For):
             # as Fun.block, but `continue` is allowed in the body (break / return are not);
             # `for k, v in d.items()` binds both names
@@ -99,9 +121,16 @@ class Fun2(pytrans.Fun):
             for node in ast.walk(s):
                 if isinstance(node, ast.Return):
                     raise Unsupported("return in for")
-            has_break = any(isinstance(node, ast.Break) for node in ast.walk(s))
-            if has_break and any(isinstance(node, ast.For) and node is not s for node in ast.walk(s)):
-                raise Unsupported("break inside nested loops")
+            def own(nodes):      # statements of this loop, not of a loop nested in it
+                for st in nodes:
+                    yield st
+                    if isinstance(st, (ast.For, ast.While)):
+                        continue
+                    for field in ("body", "orelse", "handlers", "finalbody"):
+                        sub = getattr(st, field, None)
+                        if isinstance(sub, list):
+                            yield from own([x for x in sub if isinstance(x, (ast.stmt, ast.ExceptHandler))])
+            has_break = any(isinstance(node, ast.Break) for node in own(s.body))
             it = self.expr(s.iter.func.value if pair else s.iter, locals_)
             state = [n for n in self.assigned(s.body) if n in locals_]
             tup = "(" + ", ".join(ident(n) for n in state) + ")" if len(state) != 1 else ident(state[0])
@@ -138,10 +167,11 @@ class Fun2(pytrans.Fun):
                 loop = lambda c: "(py_for %s %s (fun %s %s => %s))" % (c, tup, ident(s.target.id), pat if state else "_", body)
             after = cont(locals_)
             code, pure = it
+            bind_state = ("do' %s <-" % tup) if len(state) > 1 else ("do %s <-" % (tup if state else "_"))
             if pure:
-                return "(do %s <- %s; %s)" % (pat if state else "_", loop(code), after)
+                return "(%s %s; %s)" % (bind_state, loop(code), after)
             itc = self.tmp()
-            return "(do %s <- %s; do %s <- %s; %s)" % (itc, code, pat if state else "_", loop(itc), after)
+            return "(do %s <- %s; %s %s; %s)" % (itc, code, bind_state, loop(itc), after)
         return super().block(stmts, locals_, k)
 
     def expr(self, e, locals_):
@@ -366,6 +396,174 @@ def gen20(repo):
     return "\n".join(out) + "\n"
 
 
+def _fundef(name, params, body, lineno):
+    return ast.FunctionDef(name=name,
+                           args=ast.arguments(posonlyargs=[], args=[ast.arg(a) for a in params], vararg=None, kwonlyargs=[],
+                                              kw_defaults=[], kwarg=None, defaults=[]),
+                           body=body, decorator_list=[], lineno=lineno)
+
+
+def gen02(repo):
+    """verify_link_signature_thresholds (C02), the two parts that decide WHO may sign a step's link:
+      * the inverse subkey dictionary built at the top of the function, and
+      * the `for authorized_keyid in step.pubkeys: ... else: continue` search for the verification key.
+    The for/else is rendered as a function returning [found, verification_key, main_keyid]: `found = True` is put
+    before each `break` (the else branch runs exactly when no break was taken); the else branch itself must be
+    a logging call followed by `continue`.  The position of the two parts in the function is checked (fail closed)."""
+    out = ["(* generated by tools/pytrans2.py from %s — do not edit *)" % repo,
+           "From InToto.Model Require Import Base Json PyLib Glob PyLibGlob.", ""]
+    vt = pytrans.load(repo, "in_toto/verifylib.py")
+    fn = pytrans.find_function(vt, "verify_link_signature_thresholds")
+    body = [s for s in fn.body if not (isinstance(s, ast.Expr) and isinstance(s.value, ast.Constant))]
+    if [a.arg for a in fn.args.args] != ["layout", "steps_metadata"]:
+        raise Unsupported("verify_link_signature_thresholds: parameters changed")
+    # part 1: statements before `verified_steps_metadata = {}`
+    cut = [i for i, s in enumerate(body) if ast.unparse(s) == "verified_steps_metadata = {}"]
+    if len(cut) != 1 or cut[0] == 0:
+        raise Unsupported("verify_link_signature_thresholds: `verified_steps_metadata = {}` not found once")
+    head = body[:cut[0]]
+    if ast.unparse(head[0]) != "main_keys_for_subkeys = {}":
+        raise Unsupported("verify_link_signature_thresholds: the inverse subkey dictionary is not built first")
+    f1 = _fundef("main_keys_for_subkeys", ["layout_keys"],
+                 head + [ast.Return(value=ast.Name(id="main_keys_for_subkeys", ctx=ast.Load()))], fn.lineno)
+    code, _ = Fun2({}, {}, attr_params=["layout.keys"]).function(f1, drop_self=False)
+    out.append("(* in_toto/verifylib.py : verify_link_signature_thresholds, the inverse subkey dictionary, line %d *)" % fn.lineno)
+    out.append(code)
+    # nothing after part 1 may assign the dictionary or the key store again
+    for s in body[cut[0]:]:
+        for node in ast.walk(s):
+            tg = []
+            if isinstance(node, ast.Assign):
+                tg = node.targets
+            elif isinstance(node, (ast.AugAssign, ast.AnnAssign)):
+                tg = [node.target]
+            elif isinstance(node, ast.Call) and isinstance(node.func, ast.Attribute) and \
+                    node.func.attr in ("update", "pop", "clear", "setdefault", "popitem", "__setitem__", "__delitem__"):
+                tg = [node.func.value]
+            elif isinstance(node, ast.Delete):
+                tg = node.targets
+            for t in tg:
+                base = t
+                while isinstance(base, (ast.Subscript, ast.Attribute)) and not (
+                        isinstance(base, ast.Attribute) and pytrans.dotted(base) == "layout.keys"):
+                    base = base.value
+                d = pytrans.dotted(base) if isinstance(base, (ast.Name, ast.Attribute)) else None
+                if d in ("main_keys_for_subkeys", "layout.keys", "layout"):
+                    raise Unsupported("verify_link_signature_thresholds: %s is modified after it was built" % d)
+    # part 2: the search for the verification key
+    loops = [s for s in body[cut[0]:] if isinstance(s, ast.For)]
+    if len(loops) != 1 or ast.unparse(loops[0].target) != "step" or ast.unparse(loops[0].iter) != "layout.steps":
+        raise Unsupported("verify_link_signature_thresholds: `for step in layout.steps` not found once")
+    inner = [s for s in loops[0].body if isinstance(s, ast.For)]
+    if len(inner) != 1 or ast.unparse(inner[0].target) != "(link_keyid, link)" or \
+            ast.unparse(inner[0].iter) != "steps_metadata.get(step.name, {}).items()":
+        raise Unsupported("verify_link_signature_thresholds: the loop over a step's links changed: %s" %
+                          (ast.unparse(inner[0].iter) if inner else "absent"))
+    search = inner[0].body[0]
+    if not (isinstance(search, ast.For) and ast.unparse(search.target) == "authorized_keyid"
+            and ast.unparse(search.iter) == "step.pubkeys"):
+        raise Unsupported("verify_link_signature_thresholds: the first statement per link is not the search over step.pubkeys")
+    els = search.orelse
+    if not (len(els) == 2 and isinstance(els[1], ast.Continue) and isinstance(els[0], ast.Expr)
+            and isinstance(els[0].value, ast.Call) and pytrans.dotted(els[0].value.func).startswith("LOG.")):
+        raise Unsupported("verify_link_signature_thresholds: the else branch of the search is not `log; continue`")
+    # the names the search leaves behind are read afterwards, nothing else assigns them
+    for s in inner[0].body[1:]:
+        for node in ast.walk(s):
+            if isinstance(node, ast.Name) and isinstance(node.ctx, ast.Store) and node.id in ("verification_key", "main_keyid", "link_keyid"):
+                raise Unsupported("verify_link_signature_thresholds: %s is assigned after the search" % node.id)
+
+    class MarkBreak(ast.NodeTransformer):
+        def visit_For(self, node):      # a nested loop's break is its own
+            return node
+
+        def visit_While(self, node):
+            return node
+
+        def visit_Break(self, node):
+            return [ast.Assign(targets=[ast.Name(id="found", ctx=ast.Store())], value=ast.Constant(value=True), lineno=node.lineno), node]
+
+    import copy
+    loop = copy.deepcopy(search)
+    loop.orelse = []
+    loop.body = [x for st in loop.body for x in (lambda r: r if isinstance(r, list) else [r])(MarkBreak().visit(st))]
+    ast.fix_missing_locations(loop)
+    pre = [ast.Assign(targets=[ast.Name(id=n, ctx=ast.Store())], value=ast.Constant(value=v), lineno=search.lineno)
+           for n, v in (("found", False), ("verification_key", None), ("main_keyid", None))]
+    ret = ast.Return(value=ast.List(elts=[ast.Name(id=n, ctx=ast.Load()) for n in ("found", "verification_key", "main_keyid")],
+                                    ctx=ast.Load()))
+    f2 = _fundef("authorise", ["layout_keys", "main_keys_for_subkeys", "step_pubkeys", "link_keyid"], pre + [loop, ret], search.lineno)
+    code, _ = Fun2({}, {}, attr_params=["layout.keys", "step.pubkeys"]).function(f2, drop_self=False)
+    out.append("(* in_toto/verifylib.py : verify_link_signature_thresholds, the search for the verification key, line %d *)" % search.lineno)
+    out.append(code)
+    return "\n".join(out) + "\n"
+
+
+def gen02full(repo, parts_code):
+    """verify_link_signature_thresholds (C02, C08) as a whole, on top of the two parts of gen02: the statements that build
+    the inverse subkey dictionary become a call of f_main_keys_for_subkeys, the for/else search becomes
+        r = authorise(layout.keys, main_keys_for_subkeys, step.pubkeys, link_keyid)
+        found = r[0]; verification_key = r[1]; main_keyid = r[2]
+        if not found: <else body>
+    (f_authorise is generated from that very loop; the other names the loop assigns are checked not to be read after it).
+    Calls of methods of metadata objects become oracle applications (o_verify_signature link key, o_get_payload link):
+    Section variables of the generated file."""
+    import copy
+    vt = pytrans.load(repo, "in_toto/verifylib.py")
+    fn = copy.deepcopy(pytrans.find_function(vt, "verify_link_signature_thresholds"))
+    body = [s for s in fn.body if not (isinstance(s, ast.Expr) and isinstance(s.value, ast.Constant))]
+    cut = [i for i, s in enumerate(body) if ast.unparse(s) == "verified_steps_metadata = {}"][0]     # (checked by gen02)
+    call = lambda f, args: ast.Call(func=ast.Name(id=f, ctx=ast.Load()), args=args, keywords=[])
+    name = lambda n: ast.Name(id=n, ctx=ast.Load())
+    head = [ast.Assign(targets=[ast.Name(id="main_keys_for_subkeys", ctx=ast.Store())],
+                       value=call("main_keys_for_subkeys_of", [ast.Attribute(value=name("layout"), attr="keys", ctx=ast.Load())]),
+                       lineno=fn.lineno)]
+    rest = body[cut:]
+    outer = [s for s in rest if isinstance(s, ast.For)][0]
+    middle = [s for s in outer.body if isinstance(s, ast.For)][0]
+    search = middle.body[0]
+    temps = set()
+    for st in search.body:
+        for x in ast.walk(st):
+            if isinstance(x, ast.Name) and isinstance(x.ctx, ast.Store):
+                temps.add(x.id)
+    temps |= {search.target.id}
+    temps -= {"verification_key", "main_keyid"}
+    for st in middle.body[1:] + search.orelse:
+        for x in ast.walk(st):
+            if isinstance(x, ast.Name) and isinstance(x.ctx, ast.Load) and x.id in temps:
+                raise Unsupported("verify_link_signature_thresholds: %s, a temporary of the search, is read after it" % x.id)
+    ln = search.lineno
+    asg = lambda n, v: ast.Assign(targets=[ast.Name(id=n, ctx=ast.Store())], value=v, lineno=ln)
+    idx = lambda i: ast.Subscript(value=name("r_search"), slice=ast.Constant(value=i), ctx=ast.Load())
+    repl = [asg("r_search", call("authorise", [ast.Attribute(value=name("layout"), attr="keys", ctx=ast.Load()),
+                                                 name("main_keys_for_subkeys"),
+                                                 ast.Attribute(value=name("step"), attr="pubkeys", ctx=ast.Load()),
+                                                 name("link_keyid")])),
+            asg("found", idx(0)), asg("verification_key", idx(1)), asg("main_keyid", idx(2)),
+            ast.If(test=ast.UnaryOp(op=ast.Not(), operand=name("found")), body=search.orelse, orelse=[], lineno=ln)]
+    middle.body = repl + middle.body[1:]
+    fn.body = head + rest
+    fn.args.args = [ast.arg("layout_keys"), ast.arg("layout_steps"), ast.arg("steps_metadata")]
+    ast.fix_missing_locations(fn)
+    tr = Fun2({"authorise": 4, "main_keys_for_subkeys_of": 1}, {}, attr_params=["layout.keys", "layout.steps"])
+    tr.data_attrs = ("name", "pubkeys", "threshold", "type_")
+    tr.oracle_methods = {("verify_signature", 1): "o_verify_signature", ("get_payload", 0): "o_get_payload"}
+    code, _ = tr.function(fn, drop_self=False)
+    code = code.replace("f_main_keys_for_subkeys_of", "f_main_keys_for_subkeys")
+    out = [parts_code,
+           "(** try / except with two handlers *)",
+           "Definition py_catch2 {A B} (r : res A) (e1 e2 : err) (h1 h2 : unit -> res B) (k : A -> res B) : res B :=",
+           "  match r with Ok a => k a | Err e' => if err_eqb e' e1 then h1 tt else if err_eqb e' e2 then h2 tt else Err e' end.", "",
+           "Section Oracles.",
+           "  (** link.verify_signature(key) and link.get_payload() of a metadata object *)",
+           "  Variable o_verify_signature : pyval -> pyval -> res pyval.",
+           "  Variable o_get_payload : pyval -> res pyval.", "",
+           "(* in_toto/verifylib.py : verify_link_signature_thresholds, line %d *)" % fn.lineno,
+           code, "End Oracles."]
+    return "\n".join(out) + "\n"
+
+
 def main():
     repo, outdir = sys.argv[1], sys.argv[2]
     os.makedirs(outdir, exist_ok=True)
@@ -400,6 +598,14 @@ def main():
             sys.exit(1)
         with open(os.path.join(outdir, "Fun10.v"), "w") as f:
             f.write(text10)
+    if "--authorise" in sys.argv[3:]:
+        try:
+            text02 = gen02full(repo, gen02(repo))
+        except (Unsupported, SyntaxError, OSError) as e:
+            print("TRANSLATOR-ERROR Fun02.v: %s" % e)
+            sys.exit(1)
+        with open(os.path.join(outdir, "Fun02.v"), "w") as f:
+            f.write(text02)
     if "--items" in sys.argv[3:]:
         try:
             text3 = gen3(repo)
